@@ -23,7 +23,9 @@ pub enum Act {
 #[derive(Clone, Debug, PartialEq)]
 enum Op {
     Put { v: usize, write_done: bool },
-    Remove { delete_done: bool },
+    /// `wait`: tasks of this key still to run before the removal is complete (everything that was pending for the key when
+    /// remove() returned, the delete task included); 0 = complete
+    Remove { delete_done: bool, wait: usize },
 }
 
 struct Shared {
@@ -132,7 +134,7 @@ impl Sys {
                         ));
                     }
                 }
-                Some(Op::Remove { delete_done: true }) => {
+                Some(Op::Remove { delete_done: true, .. }) => {
                     if got.is_some() || listed {
                         fails.push(Fail::new("completed-removal-stays", how_class(how), format!("after {how}: k{k}'s removal had completed but the restarted store serves it again")));
                     }
@@ -263,7 +265,11 @@ impl Sys {
                 self.api_used += 1;
                 let key = self.sh.keys[*k].clone();
                 self.rig.remove(&key);
-                self.ops[*k].push(Op::Remove { delete_done: false });
+                // the removal is complete once everything pending for this key at this moment has run (tasks of one key
+                // run in order); if remove() left nothing to do it is complete at once
+                let tag = hexkey(&key);
+                let wait = self.rig.exec.unfinished().iter().filter(|id| self.rig.exec.info(**id).tag == tag).count();
+                self.ops[*k].push(Op::Remove { delete_done: wait == 0, wait });
             }
             Act::RunTask { i, .. } => {
                 if let Some(id) = self.rig.enabled_tasks().get(*i).copied() {
@@ -277,9 +283,14 @@ impl Sys {
                                     x => x,
                                 };
                             }
-                        } else if info.func.ends_with("::remove") {
-                            if let Some(o) = self.ops[k].iter_mut().find(|o| matches!(o, Op::Remove { delete_done: false })) {
-                                *o = Op::Remove { delete_done: true };
+                        }
+                        // one task of this key has run: every removal still waiting is one step closer
+                        for o in self.ops[k].iter_mut() {
+                            if let Op::Remove { delete_done: false, wait } = o {
+                                *wait = wait.saturating_sub(1);
+                                if *wait == 0 {
+                                    *o = Op::Remove { delete_done: true, wait: 0 };
+                                }
                             }
                         }
                     }
